@@ -322,9 +322,43 @@ def containers(item):
     return part
 
 
+def structural_offsets(content):
+    """Offsets of the bytes of a zip archive that describe its structure: local file headers, central directory, end record."""
+    import struct
+
+    offsets = set()
+    position = content.find(b"PK\x03\x04")
+    while position >= 0:
+        if position + 30 <= len(content):
+            name_length, extra_length = struct.unpack("<HH", content[position + 26:position + 30])
+            offsets.update(range(position, min(len(content), position + 30 + name_length + extra_length)))
+        position = content.find(b"PK\x03\x04", position + 4)
+    position = content.find(b"PK\x01\x02")
+    while position >= 0:
+        if position + 46 <= len(content):
+            name_length, extra_length, comment_length = struct.unpack("<HHH", content[position + 28:position + 34])
+            offsets.update(range(position, min(len(content), position + 46 + name_length + extra_length + comment_length)))
+        position = content.find(b"PK\x01\x02", position + 4)
+    position = content.rfind(b"PK\x05\x06")
+    if position >= 0:
+        offsets.update(range(position, len(content)))
+    return sorted(offsets)
+
+
 def container_cases(tier):
     cases = []
     step = 16 if tier == "quick" else 1
+    bits = (0, 4, 7) if tier == "quick" else tuple(range(8))
+    for fmt in ("ods", "excel"):
+        source = data_source(fmt, DATA, "structure")
+        content = open(source, "rb").read()
+        for at in structural_offsets(content):
+            for bit in bits:
+                cases.append({"format": fmt, "target": "data", "kind": "flip", "at": at, "bit": bit, "structural": True})
+    for storage in ("ods", "xlsx"):
+        for at in structural_offsets(cid_container(storage, "delimited")):
+            for bit in bits:
+                cases.append({"format": "delimited", "target": "cid", "cid_storage": storage, "kind": "flip", "at": at, "bit": bit, "structural": True})
     for fmt in ("delimited", "fixed", "ods", "excel"):
         source = data_source(fmt, DATA, "size")
         size = os.path.getsize(source) if isinstance(source, str) else len(source.getvalue().encode("utf-8"))
@@ -373,7 +407,7 @@ def run(ctx):
     corrupt = container_cases(ctx.tier)
     ctx.pmap(MOD, "containers", engine.chunks(corrupt, 60), label="C10 containers")
     ctx.bound = {"hostile pool": len(HOSTILE), "single hostile cell cases": single, "pair cases": len(cases) - single,
-                 "container cases": "%d (truncation and low/high bit flip at every %s offset of ods/xlsx files, every offset of csv / fixed text; data files of 4 formats, CID files as csv, ods, xlsx)" % (len(corrupt), "16th" if quick else "single")}
+                 "container cases": "%d (truncation and low/high bit flip at every %s offset of ods/xlsx files, every offset of csv / fixed text; bits %s of every byte of the zip local headers, central directory and end record; data files of 4 formats, CID files as csv, ods, xlsx)" % (len(corrupt), "16th" if quick else "single", "0, 4, 7" if quick else "0..7")}
     ctx.rule = ("one hostile value at a time (thorough: pairs) in every cell of every row of 4 valid base CIDs and of their 3-row data; each case runs Cid.read, rows x 3 modes, validate, Writer and "
                 "applications.main; non-trivial = every case (each injects a fault); states = distinct vectors of outcomes over the entry points (loaded / error class per call, exit code); any escaping exception other than "
                 "InterfaceError / DataError or exit code 4 is a failure")
